@@ -197,6 +197,12 @@ def delivery_model(chk, tier, sig):
         chk.note("model stale for add_signal: the id table's lock could not be located in its solo signature")
         return
     chk.params["add_signal"] = {"AddAtomic": atomic}
+    import inductive
+    inductive.tlaps_proof(
+        chk, "DeliveryProof.tla",
+        "Spec => []NoDoubleRegistration: for any number of threads calling add_signal concurrently (incl. calls "
+        "refused while the id table's lock is held) an instance never holds two registrations for one signal",
+        applies=atomic, why_not="AddAtomic = FALSE: the id table's lock is not held from look-up to recording")
     T = tier == "thorough"
     script = ('@[t \\in {1,2,3} |-> IF t = 1 THEN <<<<"add",12>>, <<"bad",9>>, <<"add",14>>, <<"drop">>>> '
               'ELSE IF t = 2 THEN <<<<"add",12>>, <<"add",14>>' + (', <<"add",12>>' if T else '') + ', <<"drop">>>> '
